@@ -73,6 +73,32 @@ Ltac upd_cases k s :=
   unfold with_strm, with_strms, with_has_data, with_task, with_cwin, emit, with_bad; cbn [strms out closed cwin has_data task ids maxf iw bad_pick reader_ok];
   unfold upd; destruct (Z.eqb_spec k s); [subst|]; auto.
 
+Definition closing_state (t : st) (s : Z) (rest : list sop) : st :=
+  let t1 := close_stream t s in
+  let x1 := strms t1 s in
+  if s_inbufs x1 && negb (b_complete (s_buf x1)) then
+    if s_tree x1 then with_has_data (with_strm t1 s (set_pc (mark_abort x1) PReady rest)) true
+    else with_strm t1 s (set_pc (set_buf x1 (sb_set_complete (s_buf x1))) PReady rest)
+  else with_strm t1 s (set_pc x1 PReady rest).
+Lemma do_op_close t s rest : do_op t s OClose rest = closing_state t s rest.
+Proof. reflexivity. Qed.
+Lemma do_op_exit t s rest :
+  do_op t s OExit rest =
+  if s_live (strms t s) then closing_state t s rest else with_strm t s (set_pc (strms t s) PReady rest).
+Proof. reflexivity. Qed.
+
+(* the stream record after _close_stream *)
+Lemma close_stream_strm t s :
+  strms (close_stream t s) s = (if s_live (strms t s) then set_live (strms t s) false else strms t s)
+  /\ (forall k, k <> s -> strms (close_stream t s) k = strms t k)
+  /\ out (close_stream t s) = out t /\ closed (close_stream t s) = closed t /\ cwin (close_stream t s) = cwin t
+  /\ ids (close_stream t s) = ids t /\ task (close_stream t s) = task t /\ maxf (close_stream t s) = maxf t
+  /\ reader_ok (close_stream t s) = reader_ok t.
+Proof.
+  unfold close_stream. destruct (s_live (strms t s)); cbn; [rewrite upd_same|]; repeat split; auto.
+  intros k Hk. apply upd_other, Hk.
+Qed.
+
 (* ================================================================= C08: the buffer is bounded *)
 Section Bound.
 Variable m : Z.
@@ -109,6 +135,32 @@ Lemma sinv_same_buf x y :
   s_buf y = s_buf x -> s_pc y = s_pc x -> s_prog y = s_prog x -> sinv x -> sinv y.
 Proof. intros Hb Hpc Hpr [H1 H2]. split; [unfold bbound in *; rewrite Hb, Hpc; exact H1 | rewrite Hpr; exact H2]. Qed.
 
+Lemma sinv_same_data x y pc prog :
+  b_data (s_buf y) = b_data (s_buf x) -> b_paused (s_buf y) = b_paused (s_buf x) -> s_pc y = pc -> s_prog y = prog ->
+  (pc = PReady \/ pc = PDone \/ pc = PWaitDrain) -> s_pc x = PReady -> Forall op_ok prog -> sinv x -> sinv y.
+Proof.
+  intros Hd Hp Hpc Hpr Hk Hx Hok [H1 H2]. split; [|rewrite Hpr; exact Hok].
+  unfold bbound in *. rewrite Hd, Hp, Hpc. rewrite Hx in H1. destruct Hk as [->|[->| ->]]; exact H1.
+Qed.
+
+Lemma BInv_closing t s rest :
+  s_pc (strms t s) = PReady -> Forall op_ok rest -> BInv t -> BInv (closing_state t s rest).
+Proof.
+  intros Hpc Hrest HI k. pose proof (HI k) as Hk. pose proof (HI s) as Hs.
+  destruct (close_stream_strm t s) as (Hx & Ho & _).
+  unfold closing_state. cbv zeta. rewrite Hx.
+  assert (Hs1 : sinv (if s_live (strms t s) then set_live (strms t s) false else strms t s)
+                /\ s_pc (if s_live (strms t s) then set_live (strms t s) false else strms t s) = PReady).
+  { destruct (s_live (strms t s)); (split; [|assumption]); [eapply sinv_same_buf; [| | |exact Hs]; reflexivity | exact Hs]. }
+  destruct Hs1 as [Hs1 Hpc1].
+  set (x1 := if s_live (strms t s) then set_live (strms t s) false else strms t s) in *.
+  destruct (s_inbufs x1 && negb (b_complete (s_buf x1))); [destruct (s_tree x1)|];
+    cbn [strms with_has_data with_strm with_strms]; unfold upd; (destruct (Z.eqb_spec k s); [subst|rewrite Ho by assumption; exact Hk]).
+  - eapply (sinv_same_data x1); try reflexivity; auto.
+  - eapply (sinv_same_data x1); try reflexivity; auto.
+  - eapply (sinv_same_data x1); try reflexivity; auto.
+Qed.
+
 Lemma BInv_app t s : BInv t -> BInv (app_step t s).
 Proof.
   intros HI k. pose proof (HI k) as Hk. pose proof (HI s) as Hs. pose proof HIGH_LOW as HL.
@@ -124,8 +176,7 @@ Proof.
                     if b_paused (s_buf (strms t s)) then n < HIGH else n < HIGH + m)
         by (destruct Hs as [Hb _]; unfold bbound in Hb; rewrite Hpc in Hb; exact Hb).
       cbn zeta in Hbb.
-      unfold do_op, close_stream.
-      destruct o; cbn [op_ok] in Ho.
+      destruct o; cbn [op_ok] in Ho; [unfold do_op | unfold do_op | unfold do_op | |].
       * (* OStart *) destruct (s_h2open (strms t s)); upd_cases k s;
           (split; [unfold bbound; cbn; exact Hbb | exact Hrest]).
       * (* OBody *)
@@ -144,20 +195,10 @@ Proof.
         2:{ upd_cases k s. split; [unfold bbound; cbn; exact Hbb | exact Hrest]. }
         cbn [s_tree set_buf]. destruct (s_tree (strms t s)); cbn [negb];
           upd_cases k s; (split; [|exact Hrest]); unfold bbound; cbn; exact Hbb.
-      * (* OClose *)
-        destruct (s_live (strms t s)) eqn:Hlive; cbn [strms with_has_data with_strm with_strms];
-          rewrite ?upd_same; cbn [s_inbufs s_buf set_live];
-          destruct (s_inbufs (strms t s) && negb (b_complete (s_buf (strms t s))));
-          cbn [s_h2open force_close set_live]; try destruct (s_h2open (strms t s));
-          upd_cases k s; (split; [|exact Hrest]); unfold bbound; cbn; rewrite ?zlen_nil; try exact Hbb; lia.
-      * (* OExit *)
-        destruct (s_live (strms t s)) eqn:Hlive.
-        2:{ upd_cases k s. split; [unfold bbound; cbn; exact Hbb | exact Hrest]. }
-        cbn [strms with_has_data with_strm with_strms];
-          rewrite ?upd_same; cbn [s_inbufs s_buf set_live];
-          destruct (s_inbufs (strms t s) && negb (b_complete (s_buf (strms t s))));
-          cbn [s_h2open force_close set_live]; try destruct (s_h2open (strms t s));
-          upd_cases k s; (split; [|exact Hrest]); unfold bbound; cbn; rewrite ?zlen_nil; try exact Hbb; lia.
+      * (* OClose *) rewrite do_op_close. apply BInv_closing; assumption.
+      * (* OExit *) rewrite do_op_exit.
+        destruct (s_live (strms t s)); [apply BInv_closing; assumption|].
+        upd_cases k s. split; [unfold bbound; cbn; exact Hbb | exact Hrest].
   - (* PWaitPaused *)
     destruct (b_paused (s_buf (strms t s))) eqn:Hp; [|exact Hk].
     upd_cases k s. destruct Hs as [Hb Hpr]. split; [|exact Hpr].
@@ -238,7 +279,7 @@ Lemma sinv_prio x :
   sinv x ->
   sinv {| s_buf := s_buf x; s_inbufs := s_inbufs x; s_live := s_live x; s_tree := true; s_blocked := true;
           s_win := s_win x; s_h2open := s_h2open x; s_pc := s_pc x; s_prog := s_prog x;
-          s_pushed := s_pushed x; s_forced := s_forced x; s_created := s_created x |}.
+          s_pushed := s_pushed x; s_forced := s_forced x; s_created := s_created x; s_abort := s_abort x |}.
 Proof. apply sinv_same_buf; reflexivity. Qed.
 
 Lemma BInv_client t c : label_ok (LClient c) -> BInv t -> BInv (client_step t c).
@@ -267,7 +308,7 @@ Proof.
                     else add_id (with_strm t0 k0
                            {| s_buf := s_buf x; s_inbufs := s_inbufs x; s_live := s_live x; s_tree := true; s_blocked := true;
                               s_win := s_win x; s_h2open := s_h2open x; s_pc := s_pc x; s_prog := s_prog x;
-                              s_pushed := s_pushed x; s_forced := s_forced x; s_created := s_created x |}) k0)).
+                              s_pushed := s_pushed x; s_forced := s_forced x; s_created := s_created x; s_abort := s_abort x |}) k0)).
     { intros t0 k0 H0. cbn zeta. destruct (s_tree (strms t0 k0)); [exact H0|].
       intro k. cbn [strms add_id]. upd_cases k k0. apply sinv_prio, H0. }
     intro k. cbn [strms with_has_data]. apply Hins. destruct (dep =? 0); [exact HI | apply Hins, HI].
@@ -364,7 +405,7 @@ Proof.
 Qed.
 
 Ltac si_simpl :=
-  cbn [s_buf s_inbufs s_live s_tree s_blocked s_win s_h2open s_pc s_prog s_pushed s_forced s_created
+  cbn [s_buf s_inbufs s_live s_tree s_blocked s_win s_h2open s_pc s_prog s_pushed s_forced s_created s_abort mark_abort
        set_buf set_blocked set_win set_h2open set_live set_pc add_pushed force_close forget
        b_data b_complete b_is_empty b_paused sb_close sb_set_complete sb_clear_paused sbuf_new not_stuck] in *.
 
@@ -531,6 +572,25 @@ Proof.
   - rewrite He. reflexivity.
 Qed.
 
+Lemma SI_mark_abort o c s x :
+  s_inbufs x = true -> s_pc x = PReady -> SI o c s x -> SI o c s (mark_abort x).
+Proof.
+  intros Hi Hpc H. si_start H; try assumption; try (intros; congruence); auto; try si_fresh.
+  intros Hf. destruct (Hfb Hf) as (? & ? & ?). auto.
+Qed.
+
+(* RST_STREAM instead of END_STREAM for an aborted stream, once its buffer has been flushed *)
+Lemma SI_abort_end o c s x :
+  s_inbufs x = true -> sb_complete (s_buf x) = true -> b_is_empty (s_buf x) = true ->
+  SI o c s x -> SI (o ++ [FRst s]) c s (forget (set_h2open x false)).
+Proof.
+  intros Hi Hc Hem H. apply sb_complete_spec in Hc as [Hc1 Hc2]. apply SI_quiet; [apply quiet_rst|].
+  pose proof (SI_ends_inbufs _ _ _ _ H Hi) as He.
+  si_start H; try assumption; try (intros; congruence); auto; try si_fresh.
+  - intros _. unfold not_stuck; cbn [s_pc s_buf forget set_h2open]. destruct (s_pc x) eqn:?; auto.
+  - intros Hx. rewrite He in Hx. inversion Hx.
+Qed.
+
 (* the connection closes: every registered buffer is force-closed *)
 Lemma SI_eof o s x :
   SI o false s x ->
@@ -545,7 +605,7 @@ Lemma SI_new o c s prog w bl :
   ends_on s o = O -> sent_on s o = [] -> c = false ->
   SI o c s {| s_buf := sbuf_new; s_inbufs := true; s_live := true; s_tree := true; s_blocked := bl;
               s_win := w; s_h2open := true; s_pc := PReady; s_prog := prog; s_pushed := [];
-              s_forced := false; s_created := true |}.
+              s_forced := false; s_created := true; s_abort := false |}.
 Proof. intros He Hs Hc. constructor; cbn; rewrite ?He, ?Hs; try discriminate; try reflexivity; try lia; auto; intros; congruence. Qed.
 
 Ltac updc k s :=
@@ -564,6 +624,25 @@ Ltac si_auto Hs :=
    | apply SI_force; [si_simpl; assumption | left; si_simpl; assumption |] ].
 Ltac leaf k s Hs Hk := updc k s; [si_auto Hs | other Hk].
 
+Lemma SInv_closing t s rest :
+  s_pc (strms t s) = PReady -> s_created (strms t s) = true -> SInv t -> SInv (closing_state t s rest).
+Proof.
+  intros Hpc Hcr HI k. pose proof (HI k) as Hk. pose proof (HI s) as Hs.
+  destruct (close_stream_strm t s) as (Hx & Ho & Hout & Hcl & _).
+  unfold closing_state. cbv zeta. rewrite Hx.
+  assert (Hs1 : SI (out t) (closed t) s (if s_live (strms t s) then set_live (strms t s) false else strms t s)).
+  { destruct (s_live (strms t s)); [apply SI_set_live|]; exact Hs. }
+  set (x1 := if s_live (strms t s) then set_live (strms t s) false else strms t s) in *.
+  assert (Hpc1 : s_pc x1 = PReady) by (unfold x1; destruct (s_live (strms t s)); exact Hpc).
+  assert (Hcr1 : s_created x1 = true) by (unfold x1; destruct (s_live (strms t s)); exact Hcr).
+  destruct (s_inbufs x1) eqn:Hin; destruct (b_complete (s_buf x1)) eqn:Hc; cbn [andb negb]; try destruct (s_tree x1) eqn:Htr;
+    cbn [strms out closed with_has_data with_strm with_strms]; rewrite ?Hout, ?Hcl; unfold upd;
+    (destruct (Z.eqb_spec k s); [subst|rewrite Ho by assumption; exact Hk]).
+  all: try (apply SI_pc_go; [auto | si_simpl; exact Hcr1 |]); try exact Hs1.
+  - apply SI_mark_abort; assumption.
+  - apply SI_set_complete; assumption.
+Qed.
+
 Lemma SInv_app t s : SInv t -> SInv (app_step t s).
 Proof.
   intros HI k. pose proof (HI k) as Hk. pose proof (HI s) as Hs.
@@ -574,8 +653,7 @@ Proof.
         destruct (si_fresh _ _ _ _ Hs Hc) as (_ & _ & Hx & _); congruence).
   - destruct (s_prog (strms t s)) as [|o rest] eqn:Hprog.
     + leaf k s Hs Hk.
-    + unfold do_op, close_stream.
-      destruct o.
+    + destruct o; [unfold do_op | unfold do_op | unfold do_op | |].
       * destruct (s_h2open (strms t s)) eqn:?; leaf k s Hs Hk.
       * destruct (s_tree (strms t s)) eqn:Htree; cbn [negb]; [|leaf k s Hs Hk].
         destruct (s_inbufs (strms t s)) eqn:Hin; cbn [negb]; [|leaf k s Hs Hk].
@@ -591,19 +669,8 @@ Proof.
         cbn [s_tree set_buf]. destruct (s_tree (strms t s)) eqn:?; cbn [negb]; updc k s; try other Hk.
         -- apply SI_pc_wait_drain; [exact Hin|]. apply SI_set_blocked. apply SI_set_complete; assumption.
         -- apply SI_pc_go; [auto|exact Hcr|]. apply SI_set_complete; assumption.
-      * (* OClose *)
-        destruct (s_live (strms t s)) eqn:Hlive; cbn [strms with_has_data with_strm with_strms];
-          rewrite ?upd_same; cbn [s_inbufs s_buf set_live];
-          destruct (s_inbufs (strms t s)) eqn:Hin; destruct (b_complete (s_buf (strms t s))) eqn:?; cbn [andb negb];
-          cbn [s_h2open force_close set_live]; try destruct (s_h2open (strms t s)) eqn:Hopen;
-          updc k s; try other Hk; try solve [si_auto Hs].
-      * (* OExit *)
-        destruct (s_live (strms t s)) eqn:Hlive; [|leaf k s Hs Hk].
-        cbn [strms with_has_data with_strm with_strms];
-          rewrite ?upd_same; cbn [s_inbufs s_buf set_live];
-          destruct (s_inbufs (strms t s)) eqn:Hin; destruct (b_complete (s_buf (strms t s))) eqn:?; cbn [andb negb];
-          cbn [s_h2open force_close set_live]; try destruct (s_h2open (strms t s)) eqn:Hopen;
-          updc k s; try other Hk; try solve [si_auto Hs].
+      * (* OClose *) rewrite do_op_close. apply SInv_closing; assumption.
+      * (* OExit *) rewrite do_op_exit. destruct (s_live (strms t s)); [apply SInv_closing; assumption | leaf k s Hs Hk].
   - destruct (b_paused (s_buf (strms t s))) eqn:Hp; [|exact Hk]. updc k s; [|other Hk].
     apply SI_clear_paused; assumption.
   - destruct (b_is_empty (s_buf (strms t s))) eqn:?; [|exact Hk]. leaf k s Hs Hk.
@@ -626,11 +693,14 @@ Proof.
       rewrite Hpop in He. cbn [snd] in He. rewrite He, Hc2. apply orb_true_r. }
     destruct data as [|d0 data].
     + pose proof (SI_pop_nodata _ _ _ _ _ _ Hpop Hin Hnf Hs) as Hs1.
-      destruct (sb_complete b) eqn:Hc; updc k s; try other Hk.
+      destruct (sb_complete b) eqn:Hc; [si_simpl; destruct (s_abort (strms t s)) eqn:Hab|]; updc k s; try other Hk.
+      * apply (SI_abort_end _ _ _ (set_blocked (set_buf (strms t s) b) true)); auto. apply SI_set_blocked, Hs1.
       * apply (SI_end _ _ _ (set_blocked (set_buf (strms t s) b) true)); auto. apply SI_set_blocked, Hs1.
       * apply SI_set_blocked, Hs1.
     + pose proof (SI_pop_data _ _ _ _ _ _ _ Hpop Hin Hnf Hs) as Hs1.
-      destruct (sb_complete b) eqn:Hc; updc k s.
+      destruct (sb_complete b) eqn:Hc; [si_simpl; destruct (s_abort (strms t s)) eqn:Hab|]; updc k s.
+      * apply (SI_abort_end _ _ _ (set_win (set_buf (strms t s) b) _)); auto. apply SI_set_win, Hs1.
+      * apply SI_quiet; [quiet_any|]. apply SI_quiet; [quiet_any|]. exact Hk.
       * apply (SI_end _ _ _ (set_win (set_buf (strms t s) b) _)); auto. apply SI_set_win, Hs1.
       * apply SI_quiet; [quiet_any|]. apply SI_quiet; [quiet_any|]. exact Hk.
       * apply SI_set_win, Hs1.
@@ -656,7 +726,7 @@ Lemma SI_prio o c s x :
   SI o c s x ->
   SI o c s {| s_buf := s_buf x; s_inbufs := s_inbufs x; s_live := s_live x; s_tree := true; s_blocked := true;
               s_win := s_win x; s_h2open := s_h2open x; s_pc := s_pc x; s_prog := s_prog x;
-              s_pushed := s_pushed x; s_forced := s_forced x; s_created := s_created x |}.
+              s_pushed := s_pushed x; s_forced := s_forced x; s_created := s_created x; s_abort := s_abort x |}.
 Proof. intro H. si_start H; try assumption; auto. Qed.
 
 Lemma SInv_globals t t' : strms t' = strms t -> out t' = out t -> closed t' = closed t -> SInv t -> SInv t'.
@@ -711,7 +781,7 @@ Proof.
                     else add_id (with_strm t0 k0
                            {| s_buf := s_buf x; s_inbufs := s_inbufs x; s_live := s_live x; s_tree := true; s_blocked := true;
                               s_win := s_win x; s_h2open := s_h2open x; s_pc := s_pc x; s_prog := s_prog x;
-                              s_pushed := s_pushed x; s_forced := s_forced x; s_created := s_created x |}) k0)).
+                              s_pushed := s_pushed x; s_forced := s_forced x; s_created := s_created x; s_abort := s_abort x |}) k0)).
     { intros t0 k0 H0. cbn zeta. destruct (s_tree (strms t0 k0)); [exact H0|].
       intro k. pose proof (H0 k0) as Hs. pose proof (H0 k) as Hk. cbn [strms out closed add_id].
       updc k k0; [apply SI_prio, Hs | exact Hk]. }
@@ -758,13 +828,19 @@ Definition writes (t t' : st) (fs : list frame) : Prop := out t' = (out t ++ fs)
 Lemma writes_nil t t' : out t' = out t -> writes t t' []. 
 Proof. intro H. unfold writes. rewrite app_nil_r. exact H. Qed.
 
+Lemma closing_out t s rest : out (closing_state t s rest) = out t.
+Proof.
+  destruct (close_stream_strm t s) as (_ & _ & Hout & _).
+  unfold closing_state. cbv zeta.
+  destruct (s_inbufs _ && negb _); [destruct (s_tree _)|]; cbn [out with_has_data with_strm with_strms]; exact Hout.
+Qed.
+
 Lemma app_step_frames t s : exists fs, writes t (app_step t s) fs /\ Forall (frame_ok t) fs.
 Proof.
   unfold app_step.
   destruct (s_pc (strms t s)) eqn:Hpc; try (exists []; split; [apply writes_nil; reflexivity | constructor]).
   - destruct (s_prog (strms t s)) as [|o rest] eqn:Hprog; [exists []; split; [apply writes_nil; reflexivity | constructor]|].
-    unfold do_op, close_stream.
-    destruct o.
+    destruct o; [unfold do_op | unfold do_op | unfold do_op | |].
     + destruct (s_h2open (strms t s)); [exists [FHeaders s] | exists []]; split;
         try (apply writes_nil; reflexivity); try reflexivity; repeat constructor.
     + exists []. split; [|constructor]. apply writes_nil.
@@ -774,19 +850,9 @@ Proof.
     + exists []. split; [|constructor]. apply writes_nil.
       destruct (s_inbufs (strms t s)); cbn [negb]; [|reflexivity].
       cbn [s_tree set_buf]. destruct (s_tree (strms t s)); reflexivity.
-    + destruct (s_live (strms t s)) eqn:Hlive; cbn [strms with_has_data with_strm with_strms];
-        rewrite ?upd_same; cbn [s_inbufs s_buf set_live];
-        destruct (s_inbufs (strms t s)) eqn:Hin; destruct (b_complete (s_buf (strms t s))) eqn:?; cbn [andb negb];
-        cbn [s_h2open force_close set_live]; try destruct (s_h2open (strms t s)) eqn:Hopen;
-        try (exists []; split; [apply writes_nil; reflexivity | constructor]);
-        (exists [FRst s]; split; [reflexivity | repeat constructor; assumption]).
-    + destruct (s_live (strms t s)) eqn:Hlive; [|exists []; split; [apply writes_nil; reflexivity | constructor]].
-      cbn [strms with_has_data with_strm with_strms];
-        rewrite ?upd_same; cbn [s_inbufs s_buf set_live];
-        destruct (s_inbufs (strms t s)) eqn:Hin; destruct (b_complete (s_buf (strms t s))) eqn:?; cbn [andb negb];
-        cbn [s_h2open force_close set_live]; try destruct (s_h2open (strms t s)) eqn:Hopen;
-        try (exists []; split; [apply writes_nil; reflexivity | constructor]);
-        (exists [FRst s]; split; [reflexivity | repeat constructor; assumption]).
+    + exists []. split; [|constructor]. apply writes_nil. rewrite do_op_close. apply closing_out.
+    + exists []. split; [|constructor]. apply writes_nil. rewrite do_op_exit.
+      destruct (s_live (strms t s)); [apply closing_out | reflexivity].
   - destruct (b_paused (s_buf (strms t s))); exists []; (split; [apply writes_nil; reflexivity | constructor]).
   - destruct (b_is_empty (s_buf (strms t s))); exists []; (split; [apply writes_nil; reflexivity | constructor]).
 Qed.
@@ -804,8 +870,10 @@ Proof.
   pop_facts.
   destruct data as [|d0 data].
   - destruct (sb_complete b) eqn:Hc.
-    + exists [FEnd s]. split; [reflexivity|]. repeat constructor; try assumption.
-      apply sb_complete_spec in Hc as [Hc1 _]. congruence.
+    + si_simpl. destruct (s_abort (strms t s)).
+      * exists [FRst s]. split; [reflexivity|]. repeat constructor; assumption.
+      * exists [FEnd s]. split; [reflexivity|]. repeat constructor; try assumption.
+        apply sb_complete_spec in Hc as [Hc1 _]. congruence.
     + exists []. split; [apply writes_nil; reflexivity | constructor].
   - assert (Hd : frame_ok t (FData s (d0 :: data))).
     { cbn [frame_ok]. unfold chunk_size in Hlen.
@@ -815,9 +883,12 @@ Proof.
       destruct Hnum as (? & ? & ?).
       repeat split; try assumption. exists (b_data b). exact Hsplit. }
     destruct (sb_complete b) eqn:Hc.
-    + exists [FData s (d0 :: data); FEnd s]. split; [unfold writes; cbn [out emit with_strm with_strms with_cwin]; rewrite <- app_assoc; reflexivity|].
-      constructor; [exact Hd|]. repeat constructor; try assumption.
-      apply sb_complete_spec in Hc as [Hc1 _]. congruence.
+    + si_simpl. destruct (s_abort (strms t s)).
+      * exists [FData s (d0 :: data); FRst s]. split; [unfold writes; cbn [out emit with_strm with_strms with_cwin]; rewrite <- app_assoc; reflexivity|].
+        constructor; [exact Hd|]. repeat constructor; assumption.
+      * exists [FData s (d0 :: data); FEnd s]. split; [unfold writes; cbn [out emit with_strm with_strms with_cwin]; rewrite <- app_assoc; reflexivity|].
+        constructor; [exact Hd|]. repeat constructor; try assumption.
+        apply sb_complete_spec in Hc as [Hc1 _]. congruence.
     + exists [FData s (d0 :: data)]. split; [reflexivity|]. constructor; [exact Hd | constructor].
 Qed.
 
@@ -948,45 +1019,23 @@ Ltac w_elig := first [left; reflexivity | right; split; [reflexivity | si_simpl;
 Ltac w_plain HW H2 s := rewrite with_strm_as_rewrite; apply WInv_rewrite; [exact HW | reflexivity | w_elig | w_same H2 s].
 Ltac w_hd HW H2 s := apply WInv_rewrite; [exact HW | reflexivity | w_elig | w_same H2 s].
 
-Definition closing_state (t : st) (s : Z) (rest : list sop) : st :=
-  let t1 := close_stream t s in
-  let x1 := strms t1 s in
-  if s_inbufs x1 && negb (b_complete (s_buf x1)) then
-    let x2 := force_close x1 in
-    if s_h2open x2 then emit (with_strm t1 s (set_pc (set_h2open x2 false) PReady rest)) (FRst s)
-    else with_strm t1 s (set_pc x2 PReady rest)
-  else with_strm t1 s (set_pc x1 PReady rest).
-Lemma do_op_close t s rest : do_op t s OClose rest = closing_state t s rest.
-Proof. reflexivity. Qed.
-Lemma do_op_exit t s rest :
-  do_op t s OExit rest =
-  if s_live (strms t s) then closing_state t s rest else with_strm t s (set_pc (strms t s) PReady rest).
-Proof. reflexivity. Qed.
-
 Lemma WInv_closing t s rest : SInv t -> WInv t -> WInv (closing_state t s rest).
 Proof.
   intros HS HW. pose proof (HS s) as Hs. pose proof (w_unblocked _ HW) as H2.
-  unfold closing_state, close_stream.
-        assert (HW1 : WInv (if s_live (strms t s) then with_has_data (with_strm t s (set_live (strms t s) false)) true else t)).
-        { destruct (s_live (strms t s)); [w_hd HW H2 s | exact HW]. }
-        assert (Hx1 : strms (if s_live (strms t s) then with_has_data (with_strm t s (set_live (strms t s) false)) true else t) s
-                      = if s_live (strms t s) then set_live (strms t s) false else strms t s).
-        { destruct (s_live (strms t s)); [cbn; apply upd_same | reflexivity]. }
-        pose proof (w_unblocked _ HW1) as H2'.
-        set (t1 := if s_live (strms t s) then with_has_data (with_strm t s (set_live (strms t s) false)) true else t) in *.
-        rewrite Hx1. clearbody t1.
-        assert (Hsame : forall y, s_tree y = s_tree (strms t s) -> s_tree y = s_tree (strms t1 s)).
-        { intros y Hy. rewrite Hx1. destruct (s_live (strms t s)); exact Hy. }
-        destruct (s_live (strms t s)) eqn:Hlive; cbn [s_inbufs s_buf set_live];
-          destruct (s_inbufs (strms t s)) eqn:Hin; destruct (b_complete (s_buf (strms t s))) eqn:?; cbn [andb negb];
-          cbn [s_h2open force_close set_live]; try destruct (s_h2open (strms t s)) eqn:Hopen;
-          try apply WInv_emit; rewrite with_strm_as_rewrite;
-          (apply WInv_rewrite; [exact HW1 | apply Hsame; si_simpl; congruence | w_elig | ]).
-        all: try (rewrite Hx1; si_simpl; unfold eligible; si_simpl; auto; fail).
-        all: let H := fresh in intro H; si_simpl;
-             first [ rewrite sendable_h2closed in H by (si_simpl; first [reflexivity | assumption]); discriminate
-                   | specialize (H2' s); rewrite Hx1 in H2'; si_simpl; apply H2'; rewrite <- H; symmetry;
-                     apply sendable_same; reflexivity ].
+  destruct (close_stream_strm t s) as (Hx & _).
+  assert (HW1 : WInv (close_stream t s)).
+  { unfold close_stream. destruct (s_live (strms t s)); [w_hd HW H2 s | exact HW]. }
+  pose proof (w_unblocked _ HW1) as H2'.
+  unfold closing_state. cbv zeta.
+  set (t1 := close_stream t s) in *. clearbody t1.
+  assert (Htree : s_inbufs (strms t1 s) = true -> s_tree (strms t1 s) = true).
+  { rewrite Hx. destruct (s_live (strms t s)); si_simpl; apply (si_tree _ _ _ _ Hs). }
+  destruct (s_inbufs (strms t1 s)) eqn:Hin; destruct (b_complete (s_buf (strms t1 s))) eqn:Hc; cbn [andb negb].
+  - rewrite with_strm_as_rewrite. apply WInv_rewrite; [exact HW1 | reflexivity | w_elig | w_same H2' s].
+  - rewrite (Htree eq_refl).
+    apply WInv_rewrite; [exact HW1 | reflexivity | left; reflexivity | intros _; reflexivity].
+  - rewrite with_strm_as_rewrite. apply WInv_rewrite; [exact HW1 | reflexivity | w_elig | w_same H2' s].
+  - rewrite with_strm_as_rewrite. apply WInv_rewrite; [exact HW1 | reflexivity | w_elig | w_same H2' s].
 Qed.
 
 Lemma WInv_app t s : SInv t -> WInv t -> WInv (app_step t s).
@@ -1151,7 +1200,7 @@ Definition prio_insert (t : st) (k : Z) : st :=
   else add_id (with_strm t k
          {| s_buf := s_buf x; s_inbufs := s_inbufs x; s_live := s_live x; s_tree := true; s_blocked := true;
             s_win := s_win x; s_h2open := s_h2open x; s_pc := s_pc x; s_prog := s_prog x;
-            s_pushed := s_pushed x; s_forced := s_forced x; s_created := s_created x |}) k.
+            s_pushed := s_pushed x; s_forced := s_forced x; s_created := s_created x; s_abort := s_abort x |}) k.
 
 Lemma In_add_id t s k : In k (ids (add_id t s)) <-> k = s \/ In k (ids t).
 Proof.
@@ -1649,7 +1698,7 @@ Proof.
     { destruct (b_data (s_buf (strms t k))); [congruence|]. clear. unfold zlen. cbn [length]. lia. }
     clear - Hlen H Hw Hcw Hmf. lia.
   - destruct (sb_complete b); cbn [out emit with_strm with_strms with_cwin].
-    + exists (d0 :: data), [FEnd k]. split; [discriminate|]. rewrite <- app_assoc. reflexivity.
+    + eexists (d0 :: data), [_]. split; [discriminate|]. rewrite <- app_assoc. reflexivity.
     + exists (d0 :: data), []. split; [discriminate | reflexivity].
 Qed.
 
@@ -1678,3 +1727,35 @@ Example demo_credit_resumes :
                      LSendIter (Some 1); LSendIter (Some 1); LApp 1] in
   s_pc (strms t 1) = PReady /\ zlen (sent_on 1 (out t)) = 65535 /\ zlen (b_data (s_buf (strms t 1))) = 14475.
 Proof. vm_compute. repeat split. Qed.
+
+(* ================================================================= C05 on HTTP/2: an aborted stream is reset, never ended *)
+Lemma closing_marks_abort t s rest :
+  s_inbufs (strms t s) = true -> s_tree (strms t s) = true -> b_complete (s_buf (strms t s)) = false ->
+  let x := strms (closing_state t s rest) s in
+  s_abort x = true /\ b_complete (s_buf x) = true /\ s_blocked x = false /\ b_data (s_buf x) = b_data (s_buf (strms t s))
+  /\ has_data (closing_state t s rest) = true.
+Proof.
+  intros Hin Htr Hc. destruct (close_stream_strm t s) as (Hx & _).
+  unfold closing_state. cbv zeta. rewrite Hx.
+  destruct (s_live (strms t s)); si_simpl; rewrite Hin, Hc, Htr; cbn [andb negb];
+    cbn [strms has_data with_has_data with_strm with_strms]; rewrite upd_same; si_simpl; repeat split; reflexivity.
+Qed.
+
+Lemma app_self_nil {A} (l fs : list A) : l = (l ++ fs)%list -> fs = [].
+Proof. intro H. rewrite <- (app_nil_r l) in H at 1. apply app_inv_head in H. symmetry. exact H. Qed.
+
+Lemma aborted_is_never_ended t s fs :
+  s_abort (strms t s) = true -> writes t (send_data t s) fs -> ~ In (FEnd s) fs.
+Proof.
+  intros Hab Hw Hin. unfold writes, send_data in Hw.
+  destruct (s_h2open (strms t s)); cbn [negb] in Hw.
+  2:{ cbn [out with_strm with_strms] in Hw. apply app_self_nil in Hw. subst. contradiction. }
+  destruct (s_inbufs (strms t s)); cbn [negb] in Hw.
+  2:{ cbn [out with_strm with_strms] in Hw. apply app_self_nil in Hw. subst. contradiction. }
+  destruct (sb_pop _ _) as [data b]. destruct data as [|d0 data]; destruct (sb_complete b); si_simpl; rewrite ?Hab in Hw;
+    cbn [out emit with_strm with_strms with_cwin] in Hw; rewrite <- ?app_assoc in Hw.
+  - apply app_inv_head in Hw. subst. cbn in Hin. destruct Hin as [Hin|[]]. discriminate.
+  - apply app_self_nil in Hw. subst. contradiction.
+  - apply app_inv_head in Hw. subst. cbn in Hin. destruct Hin as [Hin|[Hin|[]]]; discriminate.
+  - apply app_inv_head in Hw. subst. cbn in Hin. destruct Hin as [Hin|[]]. discriminate.
+Qed.
